@@ -107,6 +107,9 @@ func init() {
 		"r.UnsubscribeSubscription", "loader.LoadGraphQLResponseData", "sub.lastWriteTime.Store", "sub.sendHeartbeat", "sub.ctx.Context"}
 	upd := []string{"if", "return", "s.mu.Lock", "defer:s.mu.Unlock", "s.resolver.*", "s.ctx.Err"}
 	specs["C12"] = []item{
+		// the filter decision (model: Misc.SubFilter): the connective dispatch and every condition of the IN comparison
+		{Kind: "guards", File: "v2/pkg/engine/resolve/subscription_filter.go", Func: "SubscriptionFilter.SkipEvent", Name: "filterSkipEventGuards"},
+		{Kind: "guards", File: "v2/pkg/engine/resolve/subscription_filter.go", Func: "SubscriptionFieldFilter.SkipEvent", Name: "fieldFilterSkipEventGuards"},
 		{Kind: "calls", File: rsv, Func: "subscriptionState.done", Name: "subDone", Match: wr},
 		{Kind: "calls", File: rsv, Func: "subscriptionState.complete", Name: "subComplete", Match: wr},
 		{Kind: "calls", File: rsv, Func: "subscriptionState.error", Name: "subError", Match: wr},
